@@ -104,3 +104,38 @@ CHECKS = {
 }
 
 NOT_APPLICABLE = {}
+
+
+# What was added after the first version of each check (kept as addenda so that the original
+# claims stay readable): later theorems, the translated-code tie (Tie C, DESIGN §0.7) and the
+# observations added by the seeded-change rounds.
+ADDENDA = {
+    "C01": " Later: rec_transparent (the logging recorder); the front end is also run with breaker / limiter / passive and active checks / logging plugin switched on, and with 4-12 concurrent exchanges whose every byte is checked.",
+    "C02": " Later: Backend.eligible is translated from the source on every run and proved equal to the model's eligibility (eligible_refines); histories include probes failing in transport, upgrade offers, 100+ requests in flight and requests reaching a removed backend object.",
+    "C03": " Later: recovers_by_time, rlGate_admits; lock_analysis_clean (no lock still held at a return); slow-but-healthy probes racing passive ejections, the breaker with default max_requests, interim-then-5xx and upgrade-offer faults.",
+    "C04": " Later: the mirror invariant is closed over whole histories (mirror_ok_run); eject_survives_expiry_check; the Go functions of the state machine (MarkBackendUnhealthy, IsBackendHealthy, handleHealthCheckFailure, processHealthCheckResponse, handlePassiveHealthCheck) are translated from the source on every run and proved equal to the model steps for every record, counter map and instant (Tie C).",
+    "C05": " Later: wrr_exact / wrr_period / wrr_window / wrr_drift for every weight vector, core_refines_elig and reset_fresh (the weighted clauses after arbitrary histories); histories with persistent ejections, same-size swaps and strategy switches with requests in flight.",
+    "C06": " Later: jumpHash is translated from the source with Go's exact machine integers and proved equal to the unbounded model for every key and bucket count (jumpHash_refines); concurrent per-client affinity; strategy switches; names not in lexicographic order.",
+    "C07": " Later: beforeRequest / afterRequest / setState are translated from the source on every run and proved equal to the model's begin / end_ for every state and instant (Tie C); the breaker as wired into the real front end (three failures of any kind, also behind a 1xx; next request, also an upgrade offer, refused without reaching the backend).",
+    "C08": " Later: same translated-code tie; lock-order and no-callback-under-lock facts; notifyrace; accepted values are read back from the running breaker (lb wire) with an oracle independent of the model.",
+    "C09": " Later: refillTokens / Allow translated from the source and proved equal to the model (Go's truncating division, clock stepping back); upgrade offers at the gate; a crowd of other clients between two requests of one client.",
+    "C10": " Later: every HTTP method, IPv6 hosts and neighbours of listed entries, Validate run before the mux is built, start-up leaves the configuration object untouched.",
+    "C11": " Later: simultaneous adds of one name, replace-under-the-same-name with traffic, removed-object detection.",
+    "C12": " Later: package-level variables and mutating calls on foreign-typed fields are rows too; a lock still held at a return is a reported problem; exchanges that run into the handler timeout under the race detector.",
+    "C13": " Later: gauge_ok_run / gauges_zero_run (the gauge invariant over whole histories, keyed by object identity); per-backend books checked after every concurrent wave.",
+    "C14": " Later: several exchanges through one plugin instance compared with a fresh instance; the plugin where buildHandler puts it; bodies with any method.",
+    "C15": " Later: over-cap and streaming exchanges; one plugin instance across exchanges incl. cut ones and an over-cap response.",
+    "C16": " Later: upgrade offers; backends that stamp identifiers of their own; concurrent generation bursts.",
+    "C17": " Later: the chain as buildHandler composes it (front-end episodes); degenerate-but-accepted auth keys; nameless entries; sessions through one instance.",
+    "C18": " Later: range rules and accepted_values_fit (accepted values survive the uint32 / time.Duration conversions), metrics-path rules; every configured number read back from the running balancer and server; start-up keeps configuration and log level; string values survive loading byte for byte.",
+    "C19": " Later: gracefulStopAlways in shutdown_protocol; the process-level shutdown with the drain finishing and timing out; Put and the janitor pass at the moment of Shutdown.",
+    "C20": " Later: wshold variants; pool numbers as wired from the configuration; pool concurrency searches.",
+}
+for _k, _v in ADDENDA.items():
+    if _k in CHECKS:
+        CHECKS[_k] = dict(CHECKS[_k], text=CHECKS[_k]["text"] + _v)
+CHECKS["C04"] = dict(CHECKS["C04"], note=CHECKS["C04"]["note"].replace(" Mirror invariant proved per health operation, not yet closed over whole histories.", "") +
+                     " Tie C trusts the translator's fragment and semantic choices (DESIGN §6).",
+                     technique="Lean 4 proof (step theorems + whole-history invariant + refinement of the translated Go functions) + differential correspondence + trace oracle")
+for _k in ("C02", "C06", "C07", "C08", "C09"):
+    CHECKS[_k] = dict(CHECKS[_k], technique=CHECKS[_k]["technique"] + " + refinement proof of the Go functions translated from the source on every run")
